@@ -313,6 +313,24 @@ def e_fill_request(a, b, x):
     return list(fr.request())
 
 
+class _RunEl(object):
+    def run(self, flow):
+        for v in flow:
+            yield v
+
+
+def e_fill_request_run(a, b, x):
+    """FillRequest over a Run element / an accumulator, both buffering modes,
+    with and without yield_on_remainder, driven through run()."""
+    el = _sel([_RunEl(), lena.math.Sum(), lena.flow.Count()], a // 2)
+    kw = dict(buffer_output=True) if a % 2 else dict(buffer_input=True)
+    if a // 2:
+        kw["reset"] = True
+    fr = lena.core.FillRequest(el, bufsize=_sel([2, 1, 3], b // 2),
+                               yield_on_remainder=bool(b % 2), **kw)
+    return list(fr.run(iter([x, x + 1, x + 2])))
+
+
 def e_meta(a, b, x):
     el = _sel([lena.meta.SetContext("a", "{{b}}"), lena.meta.SetContext("a", 1), lena.meta.StoreContext(),
                lena.meta.UpdateContextFromStatic(), lena.meta.SetContext(5, 1)], a)
@@ -436,7 +454,7 @@ ENTRIES = [e_running_chunk, e_select_context, e_mean, e_variance, e_vectorize, e
            e_delete_context, e_context_funcs, e_context_class, e_format, e_selector, e_not, e_filter,
            e_group_by, e_group_plots, e_map_group, e_group_scale, e_count, e_slice, e_iterators,
            e_count_from_bad, e_run_if, e_progress_print, e_drop_context, e_zip, e_cache, e_sequence,
-           e_cache_drop_fails, e_source, e_split, e_split_methods, e_fill_seqs, e_adapters, e_fill_request, e_meta, e_variable,
+           e_cache_drop_fails, e_source, e_split, e_split_methods, e_fill_seqs, e_adapters, e_fill_request, e_fill_request_run, e_meta, e_variable,
            e_compose_combine, e_histogram, e_histogram_el, e_hist_funcs, e_graph, e_structure_elements,
            e_output, e_math, e_vector3, e_alter]
 
@@ -479,6 +497,6 @@ def check_entry(e: int, a: int, b: int, x: int) -> bool:
 
 
 CONDITIONS = [
-    dict(fn="check_entry", shards=(46, 46), budget=(60, 600),
+    dict(fn="check_entry", shards=(47, 47), budget=(60, 600),
          smoke=["check_entry(2, 0, 1, 1)", "check_entry(10, 0, 0, 1)", "check_entry(41, 1, 0, 1)"]),
 ]
